@@ -47,6 +47,9 @@ type NodeOpts struct {
 	RootDir       string
 	DAStartHeight uint64
 	MempoolTTL    uint64
+	// KeyLabel selects the proposer key (default "proposer"): a fresh label gives a proposer address
+	// this process has never seen.
+	KeyLabel string
 	// CustomPayload: the chain signs something other than the raw header bytes (a supported
 	// configuration: ManagerOptions.SignaturePayloadProvider).
 	CustomPayload bool
